@@ -21,7 +21,7 @@ RULE = ('targets = random TT of exact rank rho (continuous cores), d=2..6, '
 REQUIRED = {'exact-fixed-rank': 60, 'exact-growing': 60, 'cache-same-cores': 100,
     'cache-counters': 100, 'cache-contents': 100, 'info-r': 200,
     'info-e_vld': 100, 'info-e': 200, 'shape': 200,
-    'exact-when-interrupted': 100}
+    'exact-when-interrupted': 100, 'rank-growth': 60}
 ASSUMPTIONS = ['objective = dense table lookup, so values do not depend on '
     'the batch they are requested in (needed for the bitwise cache claim)',
     'targets with sigma_rho/sigma_1 < 1e-5 in an unfolding are not judged '
@@ -122,8 +122,20 @@ def run_case(case, ctx):
         if int(np.prod(n)) <= 4000:
             break
     rho = int(rng.integers(1, 5))
-    Tt, rt, T = crossh.make_target(rng, n, rho)
     mode = case['mode']
+    if mode == 'grow' and rng.random() < 0.35:
+        # small modes, target ranks above every mode size (bond ranks are
+        # limited by the unfolding, not by the mode size) - and d = 2
+        if rng.random() < 0.3:
+            d = 2
+            n = [int(rng.integers(3, 8)) for _ in range(d)]
+            rho = int(rng.integers(2, min(n) + 1))
+        else:
+            d = int(rng.integers(4, 8))
+            n = [int(rng.integers(2, 4)) for _ in range(d)]
+            rho = int(rng.integers(4, 7))
+        ctx.event('small-modes-or-d2-growth')
+    Tt, rt, T = crossh.make_target(rng, n, rho)
     if mode == 'fixed':
         r0 = list(rt)
         dr_min = dr_max = 0
@@ -195,12 +207,25 @@ def run_case(case, ctx):
         ctx.event('free-run-ranks-not-comparable')
     elif cond < 1e-5:
         ctx.skip(mon, 'ill-conditioned-target')
+    elif mode == 'grow' and not reached_before_last_sweep(plain, r0, rt):
+        # growth by >= dr_min >= 1 per sweep for rho - r0 + 2 sweeps or more:
+        # the working ranks must have arrived (they are limited by what the
+        # unfoldings can carry, which the target ranks already respect)
+        before = r0 if len(plain.sweeps) <= 1 else \
+            ref.ranks_of(plain.sweeps[-2][0])
+        ctx.viol('rank-growth', f'rank growth dr_min = {dr_min} >= 1 for '
+            f'{nswp} sweeps from ranks {r0}: ranks before the last sweep '
+            f'{before} have not reached the target ranks {rt}', shape=n,
+            result_ranks=rr)
     elif not reached_before_last_sweep(plain, r0, rt):
         # the statement promises exactness once the WORKING ranks have reached
         # rho: at least one complete sweep must have been carried out at ranks
         # >= rho (the ranks at the end of sweep nswp-1, from the callback log)
         ctx.skip(mon, 'working-ranks-did-not-reach-rho-before-the-last-sweep')
+        ctx.event('ranks-not-reached-in-mode:' + mode + f':d={d}')
     else:
+        if mode == 'grow':
+            ctx.held('rank-growth')
         err = float(np.abs(np.asarray(ref.dense_ld(Y), dtype=float) - T).max())
         ctx.check(mon, err <= 1e-8 * float(np.abs(T).max()),
             lambda: f'max|cross - target| = {err:.3e} for an exact rank-{rho} '
